@@ -13,18 +13,18 @@ use std::sync::Arc;
 
 use uuid::Uuid;
 
+use crate::cluster::ClusterState;
+use crate::cluster::NodeConfig;
 use crate::cluster::metadata::{Keyspace, Metadata, Peer, Strategy};
 use crate::cluster::node::{Node, NodeAddr};
-use crate::cluster::NodeConfig;
-use crate::cluster::ClusterState;
 use crate::network::{ConnectionConfig, PoolConfig, TcpSocketOptions};
 use crate::observability::metrics::Metrics;
 use crate::policies::host_filter::HostFilter;
 use crate::policies::reconnect::ExponentialReconnectPolicy;
 use crate::routing::ShardAwarePortRange;
-use crate::routing::locator::tablets::TabletsInfo;
-use crate::routing::locator::ReplicaLocator;
 use crate::routing::Token;
+use crate::routing::locator::ReplicaLocator;
+use crate::routing::locator::tablets::TabletsInfo;
 
 /// One row of `system.peers` / `system.local`, as the metadata reader would produce it.
 #[derive(Clone, Debug)]
